@@ -19,14 +19,30 @@ struct Counters {
     compl_roots: u64,
 }
 
-/// compile one CNF with the given builder and check everything the statement says
+/// compile one CNF with the given builder and check everything the statement says;
+/// `map[i]` is the label that table variable i carries in the builder (identity for the
+/// ordinary families, sparse large labels for the wide-manager family)
 fn check_with<'a, B: DecisionNNFBuilder<'a>>(
     b: &'a B,
     clauses: &[Clause],
     nv: usize,
     cn: &mut Counters,
 ) -> Option<(String, String)> {
-    let cnf = to_cnf(clauses);
+    let id: Vec<usize> = (0..nv).collect();
+    check_with_map(b, clauses, nv, &id, cn)
+}
+
+fn check_with_map<'a, B: DecisionNNFBuilder<'a>>(
+    b: &'a B,
+    clauses: &[Clause],
+    nv: usize,
+    map: &[usize],
+    cn: &mut Counters,
+) -> Option<(String, String)> {
+    let wide: Vec<Clause> = clauses.iter().map(|c| c.iter().map(|&(v, p)| (map[v], p)).collect()).collect();
+    let cnf = to_cnf(&wide);
+    let idx = |l: usize| map.iter().position(|&m| m == l);
+    let tt_of = |p: BddPtr| -> Result<TT, String> { bdd_tt_mapped(p, nv, &idx) };
     let want: TT = tt::of_cnf(clauses, nv);
     let d = match guarded(|| b.compile_cnf_topdown(&cnf)) {
         Ok(d) => d,
@@ -45,44 +61,83 @@ fn check_with<'a, B: DecisionNNFBuilder<'a>>(
     if matches!(d, BddPtr::Compl(_)) {
         cn.compl_roots += 1;
     }
-    let got = bdd_tt(d, nv);
+    let got = match tt_of(d) {
+        Ok(g) => g,
+        Err(e) => return Some(("wrong-models".into(), e)),
+    };
     if got != want {
         return Some(("wrong-models".into(), format!("models {:#x}, the CNF has {:#x}", got, want)));
     }
     for path in bdd_paths(d) {
-        let mut seen = 0u32;
+        let mut seen = std::collections::HashSet::new();
         for v in path.iter() {
-            if (seen >> v) & 1 == 1 {
+            if !seen.insert(*v) {
                 return Some(("variable-twice".into(), format!("a path decides variable {} twice: {:?}", v + 1, path)));
             }
-            seen |= 1 << v;
         }
     }
     // conditioning the result and its negation on every literal
     for (which, p, f) in [("result", d, want), ("negated result", d.neg(), tt::not(want, nv))] {
         for v in 0..nv {
             for val in [true, false] {
-                let r = match guarded(|| b.condition(p, VarLabel::new(v as u64), val)) {
+                let r = match guarded(|| b.condition(p, VarLabel::new(map[v] as u64), val)) {
                     Ok(r) => r,
                     Err(e) => return Some(("panic".into(), format!("condition panicked: {}", e))),
                 };
                 cn.conds += 1;
-                let g = bdd_tt(r, nv);
                 let w = tt::cofactor(f, v, val, nv);
+                let g = tt_of(r).unwrap_or(!w);
                 if g != w {
                     return Some((
                         "condition-wrong".into(),
-                        format!("condition({}, x{} = {}) denotes {:#x}, the restricted function is {:#x}", which, v + 1, val, g, w),
+                        format!("condition({}, x{} = {}) denotes {:#x}, the restricted function is {:#x}", which, map[v] + 1, val, g, w),
                     ));
                 }
                 if !p.is_scratch_cleared() || !r.is_scratch_cleared() {
-                    return Some(("scratch-left".into(), format!("condition({}, x{} = {}) left scratch data behind", which, v + 1, val)));
+                    return Some(("scratch-left".into(), format!("condition({}, x{} = {}) left scratch data behind", which, map[v] + 1, val)));
                 }
             }
         }
     }
     None
 }
+
+/// the CNF relabelled into a wide manager: decision orders identity / reversed / rotated by
+/// half over all labels of the manager, both stores
+fn check_sparse(clauses: &[Clause], map: &[usize], cn: &mut Counters) -> Option<(String, String)> {
+    let k = map.len();
+    // the statement speaks of orders over the CNF's variables: the manager is exactly as wide
+    // as the relabelled CNF (largest occurring label + 1), not as the label map
+    let nn = match clauses.iter().flat_map(|c| c.iter().map(|l| map[l.0])).max() {
+        Some(m) => m + 1,
+        None => return None,
+    };
+    let orders: Vec<(&str, Vec<usize>)> = vec![
+        ("identity", (0..nn).collect()),
+        ("reversed", (0..nn).rev().collect()),
+        ("rotated", (0..nn).map(|i| (i + nn / 2) % nn).collect()),
+    ];
+    for (oname, order) in orders {
+        for store in ["standard", "semantic64"] {
+            rsdd::verif::set_table_capacity(8);
+            let r = if store == "standard" {
+                let b = StandardDecisionNNFBuilder::new(order_of(&order));
+                rsdd::verif::set_table_capacity(0);
+                check_with_map(&b, clauses, k, map, cn)
+            } else {
+                let b = SemanticDecisionNNFBuilder::<{ primes::U64_LARGEST }>::new(order_of(&order));
+                rsdd::verif::set_table_capacity(0);
+                check_with_map(&b, clauses, k, map, cn)
+            };
+            if let Some((key, what)) = r {
+                return Some((key, format!("labels {:?}, {} order, store {}: {}", map, oname, store, what)));
+            }
+        }
+    }
+    None
+}
+
+const SPARSE_MAPS: [[usize; 3]; 3] = [[0, 64, 1], [63, 64, 127], [128, 0, 64]];
 
 fn case_json(clauses: &[Clause], order: &[usize], store: &str) -> Value {
     json!({"kind": "topdown", "cnf": cnf_json(clauses), "order": order, "store": store})
@@ -266,6 +321,41 @@ pub fn run(ctx: &Ctx) -> Report {
         rep.bound(&name, json!({"variables": n, "cnfs": sets.len()}));
         rep.merge(fam);
     }
+    // sparse, large labels in wide managers: every sequence of <= 2 clauses over 3 variables
+    {
+        let types = clause_types(3);
+        let mut sets = sequences(64, 2);
+        if ctx.tier == Tier::Quick {
+            sets = sets.into_iter().step_by(3).collect();
+        }
+        let chunks: Vec<&[Vec<usize>]> = sets.chunks(32).collect();
+        let fam = par_run(ctx, &chunks, |_, chunk| {
+            let mut r = Report::default();
+            r.exhaustive = true;
+            let mut cn = Counters::default();
+            for s in chunk.iter() {
+                let clauses: Vec<Clause> = s.iter().map(|&i| types[i].clone()).collect();
+                for m in SPARSE_MAPS.iter() {
+                    r.states += 1;
+                    r.transitions += 6;
+                    r.traces += 6;
+                    if let Some((key, what)) = check_sparse(&clauses, m, &mut cn) {
+                        r.violation(format!("topdown:{}", key), format!("cnf {} relabelled: {}", cnf_json(&clauses), what), json!({"kind": "topdown_sparse", "cnf": cnf_json(&clauses), "map": m.to_vec()}));
+                    }
+                }
+                if r.n_violations > 16 {
+                    break;
+                }
+            }
+            r.evaluations += cn.compiles + cn.conds;
+            r.add_extra("compilations", cn.compiles);
+            r.add_extra("conditionings", cn.conds);
+            r
+        });
+        rep.add_extra("sparse_label_cnfs", fam.states);
+        rep.bound("sparse_labels", json!({"label_maps": SPARSE_MAPS.iter().map(|m| m.to_vec()).collect::<Vec<_>>(), "cnfs": sets.len(), "orders": ["identity", "reversed", "rotated by half"], "stores": 2}));
+        rep.merge(fam);
+    }
     let unsat = rep.extra.get("unsat_results").and_then(|v| v.as_u64()).unwrap_or(0);
     let compl = rep.extra.get("complemented_roots").and_then(|v| v.as_u64()).unwrap_or(0);
     rep.floor("unsatisfiable CNFs compiled", unsat, 1);
@@ -282,6 +372,15 @@ pub fn replay(_ctx: &Ctx, case: &Value) -> Report {
     let order: Vec<usize> = case["order"].as_array().map(|a| a.iter().filter_map(|x| x.as_u64()).map(|x| x as usize).collect()).unwrap_or_default();
     let store = case["store"].as_str().unwrap_or("standard");
     let mut cn = Counters::default();
+    if case["kind"].as_str() == Some("topdown_sparse") {
+        let m: Vec<usize> = case["map"].as_array().map(|a| a.iter().filter_map(|x| x.as_u64()).map(|x| x as usize).collect()).unwrap_or_default();
+        if m.len() == 3 {
+            if let Some((key, what)) = check_sparse(&clauses, &m, &mut cn) {
+                rep.violation(format!("topdown:{}", key), what, case.clone());
+            }
+        }
+        return rep;
+    }
     if let Some((key, what)) = check_case(&clauses, &order, store, &mut cn) {
         rep.violation(format!("topdown:{}", key), what, case.clone());
     }
